@@ -288,7 +288,7 @@ pub fn check(code: &[u8], gas_limit: usize, acc: &mut Acc) -> CaseResult {
 }
 
 fn run_shard(ctx: &ShardCtx, acc: &mut Acc) {
-    drive(ctx, "faults", ctx.tier.pick(30_000, 300_000), 700, acc, &|ch, acc| {
+    drive(ctx, "faults", ctx.tier.pick(90_000, 400_000), 700, acc, &|ch, acc| {
         let back = ch.chance(1, 6);
         let p = g_cf(
             ch,
